@@ -113,6 +113,7 @@ package bufiox
 
 //@ ghost $f string
 //@ ghost $ferr error
+//@ global io.ErrNoProgress != nil && io.EOF != nil
 
 //@ iface io.Reader.Read
 //@   params p
@@ -167,6 +168,6 @@ package bufiox
 //@   loop 1 decreases n - maxSize
 //@   loop 2 invariant 2 <= ncap && ncap <= 0x2000000000000
 //@   loop 2 decreases n + r.ri - ncap
-//@   loop 3 invariant drInv(r) && same(drU(r), U) && r.ri == old(r.ri) && isnil(r.err) && n > len(r.buf) - r.ri && n <= cap(r.buf) - r.ri && 0 <= i
+//@   loop 3 invariant drInv(r) && same(drU(r), U) && r.ri == old(r.ri) && isnil(r.err) && n > len(r.buf) - r.ri && n <= cap(r.buf) - r.ri && i == 0
 //@   loop 3 invariant fresh(r.buf) || (region(r.buf) == region(old(r.buf)) && offset(r.buf) == offset(old(r.buf)) && cap(r.buf) == cap(old(r.buf)) && len(old(r.buf)) <= len(r.buf))
-//@   loop 3 decreases 100 - i
+//@   loop 3 decreases (n - (len(r.buf) - r.ri)) * 101 + (100 - i)
